@@ -158,11 +158,14 @@ def extract(repo="/repo", all_targets=False, log=sys.stderr):
     return out
 
 
-def _prune_cache(keep, max_entries=6):
+def _prune_cache(keep, max_entries=24, min_age_s=3 * 3600):
+    """Oldest entries beyond `max_entries` are removed, but never one younger than `min_age_s`
+    (another check process may be reading it)."""
     ents = []
+    now = time.time()
     for d in os.listdir(CACHE_DIR):
         p = os.path.join(CACHE_DIR, d)
-        if os.path.isdir(p) and p != keep:
+        if os.path.isdir(p) and p != keep and now - os.path.getmtime(p) > min_age_s:
             ents.append((os.path.getmtime(p), p))
     ents.sort()
     while len(ents) > max_entries - 1:
